@@ -83,10 +83,10 @@ def cases(draw, n):
         s1, s2 = draw(st.lists(st.sampled_from(SALTS), min_size=2, max_size=2, unique=True))
     if {s1, s2} == {None, ""}:
         s2 = "other"
-    case = {"cond": draw(st.sampled_from([0, 0, 1, 2, 3, 4])), "second": draw(st.sampled_from(["fresh", "recompile", "recompile"])), "family": fam, "offset": draw(st.sampled_from([0, 1, 1000, 10 ** 6, 10 ** 9, 123456789, 2 ** 31, 10 ** 12, 2 ** 53 - 7, 2 ** 60,
+    case = {"cond": draw(st.sampled_from([0, 0, 1, 2, 3, 4, 8])), "second": draw(st.sampled_from(["fresh", "recompile", "recompile"])), "family": fam, "offset": draw(st.sampled_from([0, 1, 1000, 10 ** 6, 10 ** 9, 123456789, 2 ** 31, 10 ** 12, 2 ** 53 - 7, 2 ** 60,
                                                            2 ** 63 - 200000, 1541815603606036480, 10 ** 24])), "weights": ws,
             "salts": [s1, s2], "n": n}
-    if fam in ("builtin-names", "twin-fields") and case["cond"] == 3:
+    if fam in ("builtin-names", "twin-fields") and case["cond"] in (3, 8):
         case["cond"] = 1
     if len(ws) >= 3 and draw(st.integers(0, 3)) == 0:
         # a label declared on several slices owns the sum of its slices (also 1 vs 1.0, which compare equal)
@@ -112,6 +112,14 @@ def _text(case, salt, ws):
         g1 = M.and_(M.or_(M.cmp_(I("uid"), "!=", S("qa-1")), M.cmp_(I("uid"), "==", S("qa-3")), 1), M.cmp_(I("uid"), "==", S("qa-2")))
         g2 = M.not_(M.or_(M.cmp_(I("uid"), "==", S("qa-1")), M.cmp_(I("uid"), "!=", S("qa-1")), 1))
         body = M.if_([(g1, M.ret([(S("qa"), "1")])), (g2, M.ret([(S("qa2"), "1")]))], inner)
+    if case.get("cond") == 8:
+        # targeting rules that rely on the documented precedence (not > and > or) WITHOUT parentheses:
+        # `not A and B` is (not A) and B - false here; `A or B and C` is A or (B and C) - true here
+        I, S = M.ident, M.lit_str
+        inner = body["else"]
+        g1 = M.and_(M.not_(M.cmp_(I("uid"), "==", S("qa-1"))), M.cmp_(I("uid"), "==", S("qa-2")))
+        g2 = M.or_(M.cmp_(I("uid"), "!=", S("qa-1")), M.and_(M.cmp_(I("uid"), "!=", S("qa-3")), M.cmp_(I("uid"), "==", S("qa-2"))))
+        body = M.if_([(g1, M.ret([(S("qa"), "1")])), (g2, inner)], M.ret([(S("qa2"), "1")]))
     if case.get("cond") == 4:
         # every unit comes without a score (NaN): `not score < 50` is true for all of them, so they get THIS statement's weights;
         # the else branch holds the mirrored weights
@@ -289,7 +297,7 @@ def fixed_cases(n):
                "salts": [s2, s1], "n": n}
     yield {"second": "fresh", "family": "seq-int", "offset": 0, "weights": ["2", "1", "1", "2"], "salts": ["A", "B"], "n": n,
            "labels": [M.enc(x) for x in ["control", "treatment", "holdout", "treatment"]]}
-    for fam, c in (("seq-int", 1), ("email", 1), ("two-field", 2), ("two-field", 1), ("uuid-sequential", 1), ("zero-padded", 3), ("two-field", 3), ("seq-int", 4), ("email", 4), ("two-field", 5), ("builtin-names", 0), ("builtin-names", 1), ("seq-int", 6), ("email", 6), ("two-field", 7), ("twin-fields", 0), ("twin-fields", 1)):
+    for fam, c in (("seq-int", 1), ("email", 1), ("two-field", 2), ("two-field", 1), ("uuid-sequential", 1), ("zero-padded", 3), ("two-field", 3), ("seq-int", 4), ("email", 4), ("two-field", 5), ("builtin-names", 0), ("builtin-names", 1), ("seq-int", 6), ("email", 6), ("two-field", 7), ("twin-fields", 0), ("twin-fields", 1), ("seq-int", 8), ("two-field", 8)):
         yield {"cond": c, "second": "fresh", "family": fam, "offset": 5, "weights": ["1", "3"], "salts": ["A", "B"], "n": n}
     yield {"second": "fresh", "family": "email", "offset": 7, "weights": ["1", "2", "1"], "salts": ["A", "B"], "n": n,
            "labels": [M.enc(x) for x in ["B", "B'", '"B']]}
